@@ -14,7 +14,7 @@ const detPkg = repoMod + "/pkg/detection"
 func matchSignatureContract(in *Interp, p *Path, fr *Frame, a []Val, s ssa.CallInstruction) Val {
 	sig := a[2].(*StructVal)
 	id, _ := sig.f[0].(StringVal).conc()
-	key := "msig:" + id
+	key := "msig:" + id + ":" + asTerm(sig.f[9]).S // ID + NodeCount (the harnesses' version tag)
 	rt := s.Common().StaticCallee().Signature.Results().At(0).Type()
 	if v, ok := p.stubs[key]; ok {
 		return copyVal(v)
